@@ -148,11 +148,17 @@ class _FakeSock:
         self._net, self._errno = net, errno_
 
     def setsockopt(self, *args):
+        if len(args) != 3 or not all(isinstance(a, int) and not isinstance(a, bool) for a in args[:2]) \
+                or not isinstance(args[2], (int, bytes)) or isinstance(args[2], bool) and False:
+            raise TypeError("setsockopt: an integer or a bytes-like option value is required")
+        if self._errno is None:
+            return None
         self._net.count("fault:setsockopt_error")
         raise oserror(self._errno)
 
     def ioctl(self, *args):
-        raise oserror(self._errno)
+        if self._errno is not None:
+            raise oserror(self._errno)
 
 
 class SimTcpTransport(_BaseTransport, asyncio.Transport):
@@ -428,9 +434,9 @@ class SimNet:
             raise oserror(outcome.get("errno", _errno.EHOSTUNREACH))
         protocol = factory()
         tr = SimTcpTransport(loop, self, protocol, (self.resolve(host), port))
-        if outcome.get("sockopt") is not None:
-            # a platform whose sockets refuse (some of) the keep-alive options: setsockopt raises OSError
-            tr.fake_sock = _FakeSock(self, outcome["sockopt"])
+        # every connection hands out a socket object for get_extra_info('socket'): it checks the argument types of
+        # setsockopt like the real one and, on request, refuses the options (a platform without them: OSError)
+        tr.fake_sock = _FakeSock(self, outcome.get("sockopt"))
         waiter = loop.create_future()
         loop.call_soon(protocol.connection_made, tr)
         loop.call_soon(_set_unless_cancelled, waiter)
